@@ -10,9 +10,9 @@ from zcv import refload
 
 KEYTYPES = ["basic-key", "identifier", "ipaddr-or-hostname"]
 NAME_POOL = {
-    "basic-key": ["alpha", "Beta-2", "gamma.x", "delta_y", "eps", "Zeta", "eta-a-b"],
-    "identifier": ["alpha", "Beta", "gamma_x", "delta_y", "eps", "zeta"],
-    "ipaddr-or-hostname": ["alpha", "beta-2", "gamma.x", "delta_y", "eps", "10.0.0.1", "eta-a-b"],
+    "basic-key": ["alpha", "Beta-2", "gamma.x", "delta_y", "eps", "Zeta", "eta-a-b", "class", "Pass"],
+    "identifier": ["alpha", "Beta", "gamma_x", "delta_y", "eps", "zeta", "import", "None"],
+    "ipaddr-or-hostname": ["alpha", "beta-2", "gamma.x", "delta_y", "eps", "10.0.0.1", "eta-a-b", "lambda"],
 }
 PLAIN_NAMES = ("alpha", "eps", "zeta")           # fixed points of every key type
 FREE_KEYS = {
@@ -28,7 +28,8 @@ BAD_KEYS = {
 SECTION_NAMES = ["n1", "n2", "N3", "alpha", "Beta", "Stra\u00dfe", "\u039f\u0394\u039f\u03a3", "/Dir/", "a>b"]
 
 GOOD = {
-    "string": ["v", "two words", "x=1", "(p)", "<q>", "# not a comment", "é", "col1\tcol2", "a \t b"],
+    "string": ["v", "two words", "x=1", "(p)", "<q>", "# not a comment", "é", "col1\tcol2", "a \t b",
+               "C:\\spool\\", "\\"],
     "integer": ["12", "-3", "0", "+7", "1_000", "9007199254740993"],
     "boolean": ["yes", "No", "TRUE", "off", "On", "false"],
     "float": ["1.5", "1e3", "-0.25", "7"],
